@@ -2,8 +2,6 @@
 pub fn simplest_in(lower: Self, upper: Self) -> Self
 /*@ requires
         wf_ratio(lower.0.numerator.v(), lower.0.denominator.v()), wf_ratio(upper.0.numerator.v(), upper.0.denominator.v()),   // RBig invariant
-        // EXCLUDED REGION (genuine defect): one end point zero, the other negative -- the real function returns 0
-        !(lower.0.numerator.v() == 0 && upper.0.numerator.v() < 0), !(upper.0.numerator.v() == 0 && lower.0.numerator.v() < 0),
     ensures
         wf_ratio(ret.0.numerator.v(), ret.0.denominator.v()),
         // equal end points (empty open interval): documented to return that number
